@@ -349,6 +349,18 @@ fn plan_base(prop: &str) -> Vec<Item> {
             }
             v.push(it("pipe_in_items", "pool=1,n=1,pat=1,conc=2,fin=1", Some(2), 3));
             v.push(it("pipe_drop_output", "pool=1,mode=0", Some(2), 3));
+            // a thread unwinding from an unrelated panic uses the object from a destructor, then lets go of it (5: last owner, 6: not)
+            for pool in [0, 1] {
+                for state in [0, 2, 3] {
+                    for dropper in [5, 6] {
+                        if pool == 0 && state != 0 {
+                            continue;
+                        }
+                        v.push(it("drop_obj", &format!("pool={},state={},dropper={}", pool, state, dropper), Some(2), 3));
+                    }
+                }
+            }
+            v.push(it("drop_obj", "pool=1,state=1,dropper=5", Some(2), 3));
             // the last owner is released inside a task's waker, on the thread that delivers the wake-up
             v.push(it("drop_obj", "pool=1,state=6,dropper=4", Some(2), 3));
             v.push(it("drop_obj", "pool=2,state=6,dropper=4", Some(1), 2));
@@ -702,6 +714,9 @@ fn plan_base(prop: &str) -> Vec<Item> {
             }
             v.push(it("drop_obj", "pool=1,state=2,dropper=3", Some(2), 3));
             v.push(it("drop_obj", "pool=0,state=5,dropper=3", Some(2), 3));
+            v.push(it("drop_obj", "pool=1,state=2,dropper=5", Some(2), 3));
+            v.push(it("drop_obj", "pool=1,state=3,dropper=6", Some(2), 3));
+            v.push(it("drop_obj", "pool=1,state=6,dropper=4", Some(1), 2));
             v.push(it("fd_result", "pool=1,mode=3,raw=0", Some(2), 2));
             v.push(it("fd_result", "pool=1,mode=1,raw=0", Some(1), 2));
             for mode in 0..4 {
